@@ -144,6 +144,7 @@ func cmdXSSAPI(args []string) int {
 		in := i2b(il.In)
 		r := apiXSS(in)
 		fmt.Fprintf(w, "{\"xss\":%v,\"ctx\":[%v,%v,%v,%v,%v],\"panic\":%q}\n", r.all, r.ctx[0], r.ctx[1], r.ctx[2], r.ctx[3], r.ctx[4], r.panic)
+		endRec(w)
 	}
 	return 0
 }
@@ -189,6 +190,7 @@ func cmdXSSPred(args []string) int {
 			defer func() {
 				if x := recover(); x != nil {
 					fmt.Fprintf(w, "{\"panic\":%q}\n", fmt.Sprint(x))
+					endRec(w)
 				}
 			}()
 			switch c.F {
@@ -198,17 +200,21 @@ func cmdXSSPred(args []string) int {
 					v = 1
 				}
 				fmt.Fprintf(w, "{\"r\":[%d]}\n", v)
+				endRec(w)
 			case "attr":
 				fmt.Fprintf(w, "{\"r\":[%d]}\n", lib.VerifIsBlackAttr(in))
+				endRec(w)
 			case "url":
 				v := 0
 				if lib.VerifIsBlackURL(in) {
 					v = 1
 				}
 				fmt.Fprintf(w, "{\"r\":[%d]}\n", v)
+				endRec(w)
 			case "dec":
 				a, b := lib.VerifHTMLDecode(in)
 				fmt.Fprintf(w, "{\"r\":[%d,%d]}\n", a, b)
+				endRec(w)
 			default:
 				fatal(fmt.Errorf("unknown predicate %q", c.F))
 			}
